@@ -46,7 +46,7 @@ fn sign_events<V: Fv>(proc_id: u64, seed: u64, nthreads: usize, per: usize, nkey
             let (sk, pk) = V::keygen(fixed);
             let skb = V::sk_to_bytes(&sk);
             for i in 0..12usize {
-                let sk_used = if i == 6 { V::sk_from_bytes(&skb).unwrap() } else if i == 9 { V::keygen(fixed).0 } else { sk.clone() };
+                let sk_used = if i == 6 { V::sk_from_bytes(&skb).unwrap_or_else(|_| sk.clone()) } else if i == 9 { V::keygen(fixed).0 } else { sk.clone() };
                 let msg = format!("message-{}", i % 2).into_bytes();
                 let sig = V::sign(&msg, &sk_used);
                 let b = V::sig_to_bytes(&sig);
